@@ -15,6 +15,8 @@ mod c_configs;
 mod c_hist;
 pub mod hist;
 mod c_inputs;
+mod c_views;
+mod c_writers;
 mod replay;
 
 pub fn replay_other(kind: &str, v: &serde_json::Value) -> i32 {
@@ -71,7 +73,13 @@ fn main() {
         "C04" => c_hist::c04(tier),
         "C05" => c_hist::c05(tier),
         "C06" => c_hist::c06(tier),
+        "C09" => c_hist::c09(tier),
+        "C13" => c_views::c13(tier),
         "C14" => c_hist::c14(tier),
+        "C20" => c_views::c20(tier),
+        "C10" => c_writers::c10(tier),
+        "C11" => c_writers::c11(tier),
+        "C19" => c_writers::c19(tier),
         "C12" => c_configs::c12(tier),
         "C17" => c_inputs::c17(tier),
         other => {
